@@ -10,7 +10,11 @@ import (
 // Script generator.  Valid scripts only (an end that has shut does nothing
 // more); a full Close ('f') is only generated at a point where nothing is in
 // flight toward the closing end and the other end sends nothing afterwards,
-// so that no TCP reset can legitimately destroy data.
+// so that no TCP reset can legitimately destroy data.  Abortive closes ('a':
+// SO_LINGER 0; 'u': close with unread received data) come after a checkpoint
+// (everything the aborting end sent has been received) and the aborting end
+// writes nothing in that phase; the other end is idle or busy sending, and
+// afterwards sends some more or not, then shuts, closes or aborts itself.
 
 var smallSizes = []int{1, 2, 7, 64, 100, 999, 1000, 4095, 4096, 4097}
 var midSizes = []int{8191, 8192, 16384, 32768, 65535, 65536, 100000}
@@ -86,7 +90,7 @@ func ending(r *hx.RNG, big bool) []string {
 			sh = "f"
 		}
 		ph = append(ph, mk(second, maybeWrites(r, big, 1, 3)+sh, ""))
-	default: // first closes fully while nothing is in flight toward it; other only shuts
+	case k < 8: // first closes fully while nothing is in flight toward it; other only shuts
 		ph = append(ph, "c/t") // checkpoint: everything delivered
 		ph = append(ph, mk(first, "f", ""))
 		sh := "h"
@@ -94,6 +98,22 @@ func ending(r *hx.RNG, big bool) []string {
 			sh = "f"
 		}
 		ph = append(ph, mk(second, sh, ""))
+	default: // first aborts (RST); other idle or busy; then other goes on or not, and ends somehow
+		ph = append(ph, "c/t") // checkpoint: everything delivered
+		switch r.Intn(3) {
+		case 0: // SO_LINGER 0, other side idle
+			ph = append(ph, mk(first, "a", ""))
+		case 1: // SO_LINGER 0 while the other side is sending
+			w, _ := writes(r, false)
+			ph = append(ph, mk(first, "a", w))
+		default: // close with unread received data
+			ph = append(ph, mk(first, "u", fmt.Sprintf("%d", r.Range(1, 20000))))
+		}
+		if r.Chance(1, 3) {
+			w, _ := writes(r, false)
+			ph = append(ph, mk(second, w, "")) // lost, but must not wedge anything
+		}
+		ph = append(ph, mk(second, []string{"h", "f", "a"}[r.Intn(3)], ""))
 	}
 	return ph
 }
@@ -122,6 +142,12 @@ func generate(cfg *hx.Config) []hx.Case {
 					break
 				}
 			}
+			for _, t := range in[4:] {
+				if strings.ContainsAny(t, "au") {
+					cfg.Count("abortive-close")
+					break
+				}
+			}
 		}
 	}
 	vias := []string{"D", "M", "F"}
@@ -144,6 +170,24 @@ func generate(cfg *hx.Config) []hx.Case {
 		{"c5/t6", "cf/t", "c/tf"},
 		{"ch/t", "c/t7h"},
 		{"c/th", "c7h/t"},
+		// abortive closes: SO_LINGER 0 / close with unread data, other end idle / busy
+		{"c5/t6", "ca/t", "c/th"},
+		{"c5/t6", "c/ta", "ch/t"},
+		{"c5/t6", "ca/t", "c/t3", "c/tf"},
+		{"c5/t6", "c/ta", "c3/t", "cf/t"},
+		{"c5/t6", "ca/t100x5~1", "c/th"},
+		{"c5/t6", "c100x5~1/ta", "ch/t"},
+		{"c5/t6", "cu/t100", "c/th"},
+		{"c5/t6", "c100/tu", "ch/t"},
+		{"c5/t6", "ca/t", "c/ta"},
+		{"ca/t", "c/th"},
+		{"c/ta", "ch/t"},
+		{"c5/t6", "ch/t", "c/ta"},
+		{"c5/t6", "c/th", "ca/t"},
+		{"c5/t6", "ca/ta"},
+		// orderly full close while the other end is still sending
+		{"c5/t6", "cf/t100x5~1", "c/th"},
+		{"c5/t6", "c100x5~1/tf", "ch/t"},
 	}
 	for _, v := range vias {
 		for _, e := range []int{0, 1, 10} {
@@ -152,6 +196,14 @@ func generate(cfg *hx.Config) []hx.Case {
 					add("mat", append([]string{"TUN", v, fmt.Sprintf("e%d", e), fmt.Sprintf("b%d", b)}, en...))
 				}
 			}
+		}
+	}
+
+	// 1b. the client half-closes in the same instant as the CONNECT head
+	for _, v := range vias {
+		for _, e := range []int{0, 1, 10, 4060, 5000} {
+			add("eshut", []string{"TUN", v, fmt.Sprintf("e%dh", e), "b0", "c/t9", "c/t3h"})
+			add("eshut", []string{"TUN", v, fmt.Sprintf("e%dh", e), "b7", "c/th"})
 		}
 	}
 
